@@ -56,6 +56,11 @@ fn fault_kind() -> io::ErrorKind {
         _ => io::ErrorKind::Other,
     }
 }
+// fault at the END-OF-INPUT probe (efail=1): the fill_buf call made when all data has been consumed fails once.  The model's
+// source does not count that call as a refill, so this experiment is judged by its own oracle (ef=1 in the result line says
+// that the fault was actually delivered).
+static EOF_FAULT_ARMED: std::sync::atomic::AtomicBool = std::sync::atomic::AtomicBool::new(false);
+static EOF_FAULT_FIRED: std::sync::atomic::AtomicBool = std::sync::atomic::AtomicBool::new(false);
 fn set_fault_kind(name: &str) {
     FAULT_KIND.store(match name { "eof" => 1, "wouldblock" => 2, "invalid" => 3, "pipe" => 4, _ => 0 }, Ordering::Relaxed);
 }
@@ -76,6 +81,10 @@ impl FragReader {
 }
 impl BufRead for FragReader {
     fn fill_buf(&mut self) -> io::Result<&[u8]> {
+        if self.avail == 0 && self.pos >= self.data.len() && EOF_FAULT_ARMED.swap(false, Ordering::Relaxed) {
+            EOF_FAULT_FIRED.store(true, Ordering::Relaxed);
+            return Err(io::Error::new(fault_kind(), "injected fault at the end-of-input probe"));
+        }
         if self.avail == 0 && self.pos < self.data.len() {
             let k = self.refills;
             self.refills += 1;
@@ -305,6 +314,8 @@ fn run_case(line: &str) -> String {
     let op = toks[0];
     let m = kv(&toks[1..]);
     set_fault_kind(get(&m, "ekind", "other"));
+    EOF_FAULT_ARMED.store(get(&m, "efail", "0") == "1", Ordering::Relaxed);
+    EOF_FAULT_FIRED.store(false, Ordering::Relaxed);
     let data = || unhex(get(&m, "in", "-"));
     match op {
         "lzma_dec" => {
@@ -549,6 +560,7 @@ fn main() {
             Err(_) => "hang out=- pos=0 fl=0 why=timeout".to_string(),
         };
         let peak = PEAK.load(Ordering::Relaxed).saturating_sub(base);
-        writeln!(out, "{} peak={}", res, peak).unwrap();
+        let ef = if EOF_FAULT_FIRED.load(Ordering::Relaxed) { " ef=1" } else { "" };
+        writeln!(out, "{} peak={}{}", res, peak, ef).unwrap();
     }
 }
